@@ -20,14 +20,17 @@ open Png Png.Framing Png.Reader
 /-- **`terminal_absorbing`**: from a terminal state every call of the `Reader` (`next_frame`,
     `next_row`/`next_interlaced_row`, `read_row`, `next_frame_info`, `finish`)
     * leads to a terminal state again;
-    * returns an error, or — row calls only — `None` or a row that was already buffered, or — `finish`
-      only — `Ok(())`; never a frame, a frame control or a header, and never a panic;
+    * returns an error, or — row calls only — `None` or a row that was already buffered, or — `next_frame` only, and
+      only when rows of the current frame were still to be delivered and its data already consumed and flushed
+      (`r.sub.cur.isSome && r.sub.caf`; repair 429476f: `next_frame` finishes such a frame first) — that frame,
+      completed from the rows that are buffered, or — `finish` only — `Ok(())`; never a frame control or a header,
+      never a frame that failed or does not exist, and never a panic;
     * returns `Ok(())` only if it is a `finish` on a reader that was neither finished nor poisoned
       (its stream stands at the end of the last frame and `IEND` is still to be read);
     * otherwise moves neither the stream decoder nor the read position: no input is consumed. -/
 theorem terminal_absorbing (cfg : Cfg) (t : TCfg) (ht : t.Ok) (r : R) (op : Op) (hI : Inv t r)
     (hr : r.isReader = true) (hT : Terminal r) (hop : op.isCall = true) :
-    Terminal (step cfg t r op).1 ∧ (step cfg t r op).2.afterEnd op = true ∧
+    Terminal (step cfg t r op).1 ∧ (step cfg t r op).2.afterEnd op (r.sub.cur.isSome && r.sub.caf) = true ∧
     ((step cfg t r op).2 = .done → op = .finish ∧ r.finished = false ∧ r.dec.state ≠ none) ∧
     (op ≠ .finish ∨ r.dec.state = none ∨ r.finished = true →
       (step cfg t r op).1.dec = r.dec ∧ (step cfg t r op).1.pos = r.pos) :=
@@ -35,13 +38,16 @@ theorem terminal_absorbing (cfg : Cfg) (t : TCfg) (ht : t.Ok) (r : R) (op : Op) 
 
 /-- **after a fatal error** (or after `ImageEnd`): every call leaves the stream decoder, the read
     position and the visible input alone and fails with an error, except that the row calls keep
-    handing out rows that were already buffered (then `None` or an error).  Every loop of
+    handing out rows that were already buffered (then `None` or an error), and that `next_frame` — when rows of
+    the current frame are still to be delivered and its data was already consumed and flushed — completes that frame
+    from the buffered rows (repair 429476f; no input is read, no pixel is made up).  Every loop of
     `ReadDecoder` makes exactly one `decode_next` call, which fails without touching anything
     (`decodeNext'_dead`). -/
 theorem poisoned_absorbing (cfg : Cfg) (t : TCfg) (ht : t.Ok) (r : R) (op : Op) (hI : Inv t r)
     (hr : r.isReader = true) (hd : r.dec.state = none) (hop : op.isCall = true) :
     (step cfg t r op).1.dec = r.dec ∧ (step cfg t r op).1.pos = r.pos ∧ (step cfg t r op).1.visible = r.visible ∧
-    ((step cfg t r op).2.isErr = true ∨ (op.isRowCall = true ∧ (step cfg t r op).2.isRowRes = true)) :=
+    ((step cfg t r op).2.isErr = true ∨ (op.isRowCall = true ∧ (step cfg t r op).2.isRowRes = true) ∨
+      (op.isFrameCall = true ∧ r.sub.cur.isSome = true ∧ r.sub.caf = true ∧ (step cfg t r op).2.isFrame = true)) :=
   Reader.poisoned_absorbing cfg ht r op hI hr hd hop
 
 /-- a poisoned stream decoder: `decode_next` fails at once and changes nothing -/
@@ -49,14 +55,20 @@ theorem poisoned_decode_next (cfg : Cfg) (r : R) (hs : r.dec.state = none) (ho :
     ∃ e, decodeNext' cfg r = (r, .error e) ∧ e.isErr = true :=
   decodeNext'_dead cfg r ⟨hs, ho⟩
 
-/-- **after the last frame** (also: after a `finish` that failed): `next_frame` and
-    `next_frame_info` answer `Parameter(PolledAfterEndOfImage)` and change nothing (but the model's
-    bookkeeping of the caller's buffer); the row calls do not touch the stream (no `decode_next` at
+/-- **after the last frame** (also: after a `finish` that failed): `next_frame_info`, and `next_frame` when no
+    row of the last frame is pending, answer `Parameter(PolledAfterEndOfImage)` and change nothing (but the model's
+    bookkeeping of the caller's buffer); `next_frame` with rows of the last frame still pending (repair 429476f)
+    finishes that frame from what is buffered — it does not touch the stream and answers the frame or an error; the row
+    calls do not touch the stream (no `decode_next` at
     all: the frame is flushed); `finish` keeps `remaining_frames = 0` and either fails or reaches
     `ImageEnd` — then the reader is finished and the stream decoder done. -/
 theorem ended_absorbing (cfg : Cfg) (t : TCfg) (ht : t.Ok) (r : R) (hI : Inv t r) (hr : r.isReader = true)
     (hrem : r.remaining = 0) (hcaf : r.sub.caf = true) :
-    (∀ p, step cfg t r (.nextFrame p) = ({ r with pendingBuf := none }, .err .parameter "PolledAfterEndOfImage")) ∧
+    (∀ p, (r.sub.cur = none →
+        step cfg t r (.nextFrame p) = ({ r with pendingBuf := none }, .err .parameter "PolledAfterEndOfImage")) ∧
+      Still r (step cfg t r (.nextFrame p)).1 ∧
+      ((step cfg t r (.nextFrame p)).2.isErr = true ∨
+        (r.sub.cur.isSome = true ∧ (step cfg t r (.nextFrame p)).2.isFrame = true))) ∧
     step cfg t r .nextFrameInfo = ({ r with pendingBuf := none }, .err .parameter "PolledAfterEndOfImage") ∧
     (Still r (step cfg t r .nextRow).1 ∧ (step cfg t r .nextRow).2.isRowRes = true) ∧
     (Still r (step cfg t r .readRow).1 ∧ (step cfg t r .readRow).2.isRowRes = true) ∧
